@@ -81,6 +81,7 @@ def run(tier):
     nodes, pairs, failures = [], [], []
     laws = collections.Counter()
     for _ in range(nbase):
+        common.tick()
         base, obj = g.grow(r.choice([0, 1, 2, 3, 4]))
         if obj is None or base.op == 'cycle' or 'cycle' in set(base.ops()):
             continue
